@@ -124,6 +124,18 @@ structure Ctx where
   forwardZone : Option Zone
   acceptConfig : Bool
   acceptCommands : Bool
+  /-- config::UpdateObject: the message's `config` text is empty (apilistener-configsync.cpp:108, 112) -/
+  configEmpty : Bool := false
+  /-- config::UpdateObject: the message's `version` is greater than the existing object's (:139) -/
+  versionNewer : Bool := true
+  /-- config::DeleteObject: the existing object belongs to package `_api` (:281) -/
+  apiPackage : Bool := true
+  /-- event::ExecuteCommand, forwarding branch: an endpoint of the child zone towards the target does not announce
+      the capability ExecuteArbitraryCommand (clusterevents.cpp:972) -/
+  childLacksCapability : Bool := false
+  /-- event::ExecuteCommand, forwarding branch: the child zone towards the target may not access the named
+      checkable (clusterevents.cpp:1027) -/
+  hostInaccessibleToChild : Bool := false
   deriving Repr, DecidableEq
 
 /-- `m_Endpoint` of the connection (jsonrpcconnection.cpp:46-47: looked up only `if (authenticated)`);
@@ -222,8 +234,8 @@ def accepts (f : Forest) (m : Method) (c : Ctx) : Bool :=
   | .configUpdate => ep && guardParent f c && c.acceptConfig
   -- apilistener-configsync.cpp:42-96 (:63, :82)
   | .configUpdateObject => guardConfigSender f c && c.acceptConfig
-  -- apilistener-configsync.cpp:215-300 (:245, :254; the object must exist and belong to package _api)
-  | .configDeleteObject => guardConfigSender f c && c.acceptConfig && c.objExists
+  -- apilistener-configsync.cpp:215-300 (:245, :254; the object must exist :275 and belong to package _api :281)
+  | .configDeleteObject => guardConfigSender f c && c.acceptConfig && c.objExists && c.apiPackage
   -- jsonrpcconnection-pki.cpp:344-351 (:346): endpoint exists and the FromZone guard
   | .updateCertificate => ep && guardParent f c
   -- jsonrpcconnection-pki.cpp:28-: meant for anonymous clients, no guard
@@ -234,6 +246,74 @@ def accepts (f : Forest) (m : Method) (c : Ctx) : Bool :=
   | .hello => ep
   -- jsonrpcconnection.cpp:376-388: advances the sender's Endpoint's local log position
   | .setLogPosition => ep
+
+/-- `event::ExecuteCommand` forwarding (clusterevents.cpp:963-1054): instead of forwarding the command, the receiver
+    answers with an `event::ExecutedCommand` error notice (exit 126) when the target zone lies strictly below it and
+    an endpoint of the direct child zone on the way cannot execute arbitrary commands (:968-994), or that child zone
+    is not the target's zone and may not access the checkable (:1027-1051). -/
+def forwardErrorNotice (f : Forest) (c : Ctx) (tz : Zone) : Bool :=
+  tz != c.localZone &&
+  (c.childLacksCapability || (c.hostInaccessibleToChild && f.parent tz != some c.localZone))
+
+/-- The notice is relayed with `RelayMessage(nullptr, nullptr, …)` (:992, :1049), i.e. to the receiver's own zone and
+    to its parent zone.  With one peer in the own zone (the harness's topology) somebody OTHER than the sender gets it
+    unless the sender is that peer and there is no parent zone (then the notice is merely the reply to the sender). -/
+def noticeReachesSomeoneElse (f : Forest) (c : Ctx) : Bool :=
+  c.endpointZone != some c.localZone || (f.parent c.localZone).isSome
+
+/-- Past its guards, does the handler have anything left to do?  `config::UpdateObject`
+    (apilistener-configsync.cpp:104-143): an object that does not exist yet is created from a non-empty `config`
+    text (:112-136; nothing happens without text, :138); an existing object takes the modified attributes and the
+    version only if the message's version is greater than its own (:142).  A forwarded `event::ExecuteCommand` that
+    is answered with an error notice shows only if the notice reaches somebody else.  Every other handler acts on any
+    well-formed message that passed its guards (the harness sends values that differ from the current ones). -/
+def effective (f : Forest) (m : Method) (c : Ctx) : Bool :=
+  match m with
+  | .configUpdateObject => if c.objExists then c.versionNewer else !c.configEmpty
+  | .executeCommand =>
+    match c.forwardZone with
+    | none => true
+    | some tz => if forwardErrorNotice f c tz then noticeReachesSomeoneElse f c else true
+  | _ => true
+
+/-- The message changes something on the receiver (or makes it send something to somebody other than the sender). -/
+def applies (f : Forest) (m : Method) (c : Ctx) : Bool := accepts f m c && effective f m c
+
+/-- What can be seen of one handled message from outside (before/after snapshots of the receiver). -/
+structure Obs where
+  /-- the serialised state of some object differs -/
+  objects : Bool
+  /-- a file or directory under the data directory appeared, vanished or changed -/
+  files : Bool
+  /-- a message was queued to an endpoint other than the sender -/
+  relayed : Bool
+  /-- a command was executed or a notification signal was delivered to local subscribers -/
+  executed : Bool
+  /-- an object OTHER than the sender's own `Endpoint` object differs (implies `objects`) -/
+  foreign : Bool := objects
+  deriving Repr, DecidableEq
+
+def Obs.applied (o : Obs) : Bool := o.objects || o.files || o.relayed || o.executed || o.foreign
+
+def Obs.nothing : Obs := { objects := false, files := false, relayed := false, executed := false, foreign := false }
+
+/-- `icinga::Hello` (apilistener.cpp:1791-1832) writes `icinga_version`/`capabilities`, `log::SetLogPosition`
+    (jsonrpcconnection.cpp:376-388) writes `local_log_position` — of `origin->FromClient->GetEndpoint()`, the sender's
+    own Endpoint object, and nothing else; `event::Heartbeat` does nothing. -/
+def touchesOnlySenderEndpoint : Method → Bool
+  | .hello | .setLogPosition | .heartbeat => true
+  | _ => false
+
+/-- **The model's observation of one message.**  `eff` is what the method's effect would show if it ran (what an
+    accepted update does to an object is the business of other properties — any value is allowed); the model runs it
+    only for a message that `applies`, and the connection-bookkeeping methods are confined to the sender's own
+    Endpoint object. -/
+def observe (f : Forest) (m : Method) (c : Ctx) (eff : Obs) : Obs :=
+  if applies f m c then
+    (if touchesOnlySenderEndpoint m then
+       { objects := eff.objects, files := false, relayed := false, executed := false, foreign := false }
+     else eff)
+  else Obs.nothing
 
 /-- One handled message at the level the property talks about: a refused message leaves the node's
     state as it is and sends nothing; an accepted one runs the method's effect.  The effect itself is
